@@ -348,10 +348,12 @@ func checkSniConf(ruleMap TlsRuleMap) error {
 	allName := make(map[string]bool)
 	for product, rule := range ruleMap {
 		for i, name := range rule.SniConf {
-			if allName[name] {
+			// host names compare case-insensitively (they are looked up in lower case)
+			key := strings.ToLower(name)
+			if allName[key] {
 				return fmt.Errorf("found duplicated name (%s:%d) %s", product, i, name)
 			}
-			allName[name] = true
+			allName[key] = true
 		}
 	}
 	return nil
